@@ -164,7 +164,8 @@ func (self *Transformer) exprCanControlLoop(node ast.AnalyzedExpression) bool {
 			}
 		}
 
-		return false
+		// The default arm can hold a `break` / `continue` just like any other arm
+		return node.DefaultArmAction != nil && self.exprCanControlLoop(*node.DefaultArmAction)
 	case ast.TryExpressionKind:
 		node := node.(ast.AnalyzedTryExpression)
 
